@@ -634,6 +634,7 @@ def analyse(job, impl, model, enc_modelled):
 def campaign(ctx, njobs, prop, enc_modelled):
     quick = ctx.tier == "quick"
     templates = make_templates(ctx, quick)
+    ctx.gsm_templates = templates
     jobs = make_jobs(ctx, njobs, prop, templates)
     hs = {j.name: j.harness_script() for j in jobs}
     impl = ctx.batch([(j.name, hs[j.name]) for j in jobs], workers=4, clean=True)
@@ -683,6 +684,70 @@ def campaign(ctx, njobs, prop, enc_modelled):
     return jobs, hs, probs, stats
 
 
+# ---------------------------------------------------------------------------------------------------
+# gsm610_seek, called directly (`cseek`, harness/gsmx.c): model-tie stream for code the public API cannot reach
+# ---------------------------------------------------------------------------------------------------
+
+def cseek_stream(ctx, templates, nfiles):
+    """-> (problems as (name, text, script), stats). Files of campaign-made blocks; reads, direct codec seeks to block starts,
+    mid-block frames, 0, the end, beyond the end and negative offsets, reads again; `Sf.Gsm.CHandle` answers the same script."""
+    rng = ctx.rng
+    jobs = []
+    for k in range(nfiles):
+        cont = ["raw", "wav", "aiff", "w64"][k % 4]      # (WAVEX + GSM 06.10 cannot be written or parsed: that arm of gsm610_init is dead)
+        base = "wav" if cont == "wavex" else cont
+        bs, spb = geom(base)
+        nb = rng.choice([1, 2, 3, 4, 6, 9])
+        region = make_region(rng, base, nb, rng.choice(["noise", "mixture", "loud"]))
+        if cont == "raw":
+            f = region
+        elif cont == "wav":
+            f = wav_file(region)
+        else:
+            if nb not in templates.get(cont, {}):
+                continue
+            f = splice(base, templates[cont][nb], region)
+        g = geometry(base, f)
+        F = spb * (g[1] // bs + (0 if g[1] % bs == 0 or (g[1] % bs == 1 and bs == 33) else 1))
+        if g[2] is not None:
+            F = min(F, g[2])
+        ops = []
+        for _ in range(rng.choice([3, 5, 8])):
+            ops.append(("cr", rng.choice([1, 7, spb - 1, spb, spb + 1, 2 * spb + 3, 40])))
+            t = rng.choice([0, 0, spb, 2 * spb, spb // 2, spb + 1, spb - 1, F, F - 1, F + 1, -1, rng.randrange(0, F + 2), 3 * spb])
+            ops.append(("cseek", t))
+        ops.append(("cr", spb + 5))
+        hl = ["store s0 " + f.hex(), ("open h0 s0 r fmt=%08x ch=1 sr=8000" % (RAW | GSM)) if cont == "raw" else "open h0 s0 r"]
+        ml = ["codec gsm wav=%d wavex=%d" % (1 if is_wav(base) else 0, 1 if cont == "wavex" else 0),
+              "cload %s dlen=%d%s" % (f[g[0]:].hex(), g[1], "" if g[2] is None else " hdr=%d" % g[2])]
+        for op in ops:
+            hl.append("r h0 s16 i %d" % op[1] if op[0] == "cr" else "cseek h0 %d" % op[1])
+            ml.append("%s %d" % op)
+        hl.append("close h0")
+        jobs.append(("cseek-%s-%d-%d" % (cont, nb, k), hl, ml))
+    impl = ctx.batch([(n, "\n".join(hl) + "\n") for (n, hl, ml) in jobs], workers=3, clean=True)
+    model = run_model(ctx, [(n, "\n".join(ml) + "\n") for (n, hl, ml) in jobs], workers=2)
+    probs, stats = [], collections.Counter()
+    for (n, hl, ml) in jobs:
+        a, b = impl.get(n, []), model.get(n, [])
+        stats["files"] += 1
+        for k in range(1, len(hl) - 1):
+            x, y = kv(a[k]) if k < len(a) else {}, kv(b[k - 1]) if k - 1 < len(b) else {}
+            if hl[k].startswith("open"):
+                ok = x.get("frames") == y.get("frames")
+            elif hl[k].startswith("cseek"):
+                ok = x.get("ret") == y.get("ret")
+                stats["codec_seeks_compared"] += 1
+            else:
+                ok = x.get("ret") == y.get("ret") and x.get("data") == y.get("data")
+                stats["reads_after_codec_seeks_compared"] += 1
+            if not ok:
+                probs.append((n, "line %d `%s`: implementation %s / model %s" % (k, hl[k][:60], (a[k] if k < len(a) else "<missing>")[:200], (b[k - 1] if k - 1 < len(b) else "<missing>")[:200]),
+                              "\n".join(hl[:k + 1]) + "\n"))
+                break
+    return probs, stats
+
+
 CATS = {
     "C05": {"count", "position", "crash", "open"},
     "C06": {"stream", "position", "seek", "crash", "open"},
@@ -728,7 +793,21 @@ def run(ctx, prop, njobs):
                       % (len(corr), len(corr_jobs), stats["jobs"], j.name, p.cat, ln, j.lines[ln][:100], p.text[:400], (p.impl or "")[:300], (p.model or "")[:300], prop,
                          "\n".join(j.lines[:ln + 1]) + "\n"), no_input=True)
         found = True
+    cstats = {}
+    if prop == "C06":
+        cprobs, cstats = cseek_stream(ctx, ctx.gsm_templates, 40 if ctx.tier == "quick" else 400)
+        ctx.count(cstats.get("codec_seeks_compared", 0) + cstats.get("reads_after_codec_seeks_compared", 0))
+        if cprobs and not found:
+            n, text, script = cprobs[0]
+            ctx.violation("c06-gsm-codec-seek-stream",
+                          "# correspondence stream 'gsm610_seek called directly (psf->seek) vs Sf.Gsm.seekAsWritten' no longer agrees: %d of %d files differ\n"
+                          "# first: %s, %s\n# (sf_seek never reaches this function on a GSM handle - sf.seekable = 0 -, so no public-API history shows the difference)\n--- script\n%s"
+                          % (len(cprobs), cstats["files"], n, text, script), no_input=True)
+            found = True
+        cstats = dict(cstats)
+        cstats["differences"] = len(cprobs)
     note = {k: v for k, v in sorted(stats.items())}
+    note["codec_seek_direct_call_stream"] = cstats
     note["correspondence_differences"] = len(corr)
     note["encoder_modelled"] = ENC_MODELLED
     note["predicate_failures_by_category"] = dict(collections.Counter(p.cat for p in probs if p.kind == "pred"))
